@@ -49,8 +49,8 @@ def oracle(run: sched.Run) -> None:
 
 
 def _harness(prog, specs):
-    """specs: list of (pos, act, val, txt) with concrete act"""
-    reqs = [Req(GAP, pos, act, val, txt) for (pos, act, val, txt) in specs]
+    """specs: list of (pos, act, val, txt) or (where, pos, act, val, txt) with concrete act (and placement)"""
+    reqs = [Req(GAP, *sp) if len(sp) == 4 else Req(*sp) for sp in specs]
     run = sched.Run(programs.program(prog), reqs)
     try:
         run.go()
@@ -96,6 +96,16 @@ def sched1(prog: int, p0: int, a0: int, v0: int, t0: str):
     _harness(pick(prog, programs.N_PROGRAMS), [(p0, pick(a0, NACT), v0, t0)])
 
 
+def sched1w(prog: int, w0: int, p0: int, a0: int, v0: int, t0: str):
+    """one request issued from inside a listener notification or an ENTERING_STATE/EXITING_STATE callback, i.e. in the
+    middle of a transition (occurrence 0..2 of that event)"""
+    assume(len(t0) <= 2)
+    w = pick(w0, NWHERE)
+    assume(w != GAP and 0 <= p0 <= 2)
+    _harness(pick(prog, programs.N_PROGRAMS), [(w, p0, pick(a0, NACT), v0, t0)])
+    NOTES.witness('request_mid_transition')
+
+
 def sched2(prog: int, p0: int, a0: int, v0: int, t0: str, p1: int, a1: int, v1: int, t1: str):
     assume(0 <= p0 <= p1 <= NPOS)
     assume(len(t0) <= 2 and len(t1) <= 2)
@@ -112,12 +122,14 @@ def sched3(prog: int, p0: int, a0: int, v0: int, t0: str, p1: int, a1: int, v1: 
 
 NPOS = 12
 K3_PROGS = (1, 2, 3, 9)   # K = 3 in the thorough tier: the programs with await points / waits
-HARNESSES = {'sched1': sched1, 'sched2': sched2, 'sched3': sched3}
+NWHERE = 7
+HARNESSES = {'sched1': sched1, 'sched1w': sched1w, 'sched2': sched2, 'sched3': sched3}
 
 
 def shards(tier):
     out = []
     for prog in range(programs.N_PROGRAMS):
+        out.append(dict(name=f'sched1w/prog={prog}', harness='sched1w', fixed=dict(prog=prog), budget_s=300 if tier == 'quick' else 900))
         if tier == 'quick':
             for a0 in range(NACT):
                 out.append(dict(name=f'sched2/prog={prog},a0={a0}', harness='sched2', fixed=dict(prog=prog, a0=a0), budget_s=200))
@@ -184,10 +196,10 @@ def extra_obligations(tier):
 
 
 BOUNDS = {
-    'quick': dict(requests='K = 2', actions=sched.ACT_NAMES, positions=f'every gap between loop callbacks/idle ticks 0..{NPOS} + after termination',
+    'quick': dict(requests='K = 2 between loop callbacks; K = 1 issued from inside a listener notification (running/waiting/paused/played) or an ENTERING_STATE/EXITING_STATE callback (occurrence 0..2)', actions=sched.ACT_NAMES, positions=f'every gap between loop callbacks/idle ticks 0..{NPOS} + after termination',
                   programs='P0..P10 (sync, async with 1-2 await points, waits, sync and async failure, Kill command, unsuccessful result, refused FINISHED entry, 2 workchains)',
                   data='resume values int (unbounded), kill/pause texts str len <= 2'),
-    'thorough': dict(requests='K = 2 for all programs, K = 3 for P1 P2 P3 P9', actions=sched.ACT_NAMES, positions=f'0..{NPOS} + after termination', programs='P0..P10',
+    'thorough': dict(requests='K = 2 for all programs, K = 3 for P1 P2 P3 P9 (between loop callbacks); K = 1 mid-transition (listener notification / state-event callback)', actions=sched.ACT_NAMES, positions=f'0..{NPOS} + after termination', programs='P0..P10',
                      data='int unbounded, str len <= 1'),
 }
 OUTSIDE = ['more than K requests', 'hooks that raise (that is C03)', 'requests issued from listener callbacks (covered by C04/C02 harnesses)',
@@ -198,6 +210,6 @@ SOLVER_ROLE = ('selector role: the solver drives the exhaustive, pruned case spl
                'collapse into one path) and certifies exhaustion; data role for resume values/texts; plus a z3 table lemma over the ALLOWED sets')
 EXPLANATION = 'lifecycle-graph legality of every ENTERED transition and finality of terminal states under all bounded schedules'
 ASSUMPTIONS = ['environment policy at idle ticks: play a paused process, resume a waiting one with a default value / complete its awaited future']
-REQUIRED_WITNESSES = ['request_while_stepping', 'probe_after_terminal', 'late_failure_after_terminal', 'kill_applied_live', 'pause_on_waiting']
+REQUIRED_WITNESSES = ['request_while_stepping', 'probe_after_terminal', 'late_failure_after_terminal', 'kill_applied_live', 'pause_on_waiting', 'request_mid_transition']
 LEVEL_TEXT = ('bounded exhaustive symbolic exploration of all placements of K control requests / late callbacks over 9 programs; '
               'every observed transition must be an edge of the documented graph and terminal labels never change; plus a z3 lemma that the ALLOWED tables equal the documented graph')
